@@ -100,7 +100,7 @@ Proof.
   unfold valid_obj_body. rewrite Hc.
   assert (E : forallb (fun kv => match find (fun s => ustr_eqb (sname s) (fst kv)) (cslots c) with
                                  | Some s => valid_kind sw pok m (skind s) (snd kv)
-                                 | None => false
+                                 | None => has_toplevel_extension c mem && no_empties (snd kv)
                                  end) mem = false).
   { apply not_true_is_false. intros T. rewrite forallb_forall in T. specialize (T _ Hin). simpl in T.
     rewrite Hs, Hv in T. discriminate. }
